@@ -301,10 +301,24 @@ where
         rset.npos = 0;
         let mut is_new = true;
 
+        // If an error occurs while the set is being filled, the set is emptied: the offsets
+        // found so far would not refer to the bytes it contains.
+        macro_rules! try_or_clear {
+            ($expr: expr) => {
+                match $expr {
+                    Ok(item) => item,
+                    Err(e) => {
+                        rset.npos = 0;
+                        return Some(Err(e));
+                    }
+                }
+            };
+        }
+
         while self.state != State::Finished {
             if self.state == State::Incomplete {
                 // resume incomplete search after previous read_record_set(), or
-                if !try_opt!(self.resume_incomplete_search(is_new)) {
+                if !try_or_clear!(self.resume_incomplete_search(is_new)) {
                     return None;
                 }
                 // reset state to Positioned
@@ -314,7 +328,7 @@ where
             } else {
                 // search the next complete record after `next()`, or in
                 // later iterations of this loop
-                if !try_opt!(self.search()) {
+                if !try_or_clear!(self.search()) {
                     // At least one record must be present. If not, continue
                     // with `resume_incomplete_search()` in next iteration
                     if rset.npos == 0 {
